@@ -269,35 +269,30 @@ def step (_ : Unit) (line : String) : Unit × String :=
           let dstRoot := match dd with
             | some d => (absPath? cwdOpt d).getD []
             | none => dstRoot
-          -- close fault: every regular-file entry that is written to that path reports an error after its payload
-          let es := match cf with
-            | some c => es.map fun e =>
-                if e.kind == .reg && cleanJoin dstRoot e.name == dstRoot ++ relPath c then { e with short := true } else e
-            | none => es
-          let es := match lim with
-            | none => es
-            | some k => es.map fun e =>
-                if e.kind == .reg && e.data.length > k then { e with data := e.data.take k, short := true } else e
+          -- destination-side faults: the write limit (`w:`) and the path whose close fails (`cf:`) go to the model's
+          -- copy step (`Ex.extractFileR`: open, write*, deferred close), nothing is done to the entries here
+          let flt : Faults := { writeLimit := lim,
+                                closeFails := match cf with | some c => [dstRoot ++ relPath c] | none => [] }
           -- a tar file cut inside its first header opens, then the reader rejects the header; a cut zip file has no
           -- central directory and does not open
           let es := if via == "v:cut" && !zip then [{ kind := .corrupt, name := [] }] else es
           let opened := !(via == "v:missing" || (via == "v:cut" && zip))
           let run (fs : FS) : FS × Bool :=
             match via, zip with
-            | "v:x", false => tarExtractDefaultR fs dstRoot es
-            | "v:x", true => zipExtractDefaultR fs dstRoot es
-            | "v:a", false => tarExtractArchiveR true fs dstRoot es
-            | "v:a", true => zipExtractArchiveR true fs dstRoot es
-            | "v:am", false => tarExtractArchiveWithMaskR true fs dstRoot mk es
-            | "v:am", true => zipExtractArchiveWithMaskR true fs dstRoot mk es
+            | "v:x", false => tarExtractDefaultF flt fs dstRoot es
+            | "v:x", true => zipExtractDefaultF flt fs dstRoot es
+            | "v:a", false => tarExtractArchiveF flt true fs dstRoot es
+            | "v:a", true => zipExtractArchiveF flt true fs dstRoot es
+            | "v:am", false => tarExtractArchiveWithMaskF flt true fs dstRoot mk es
+            | "v:am", true => zipExtractArchiveWithMaskF flt true fs dstRoot mk es
             | "v:", false => (match dd with
-                | some d => tarExtractWithMaskFrom fs cwdOpt d mk es   -- `filepath.Abs` inside
-                | none => tarExtractR fs dstRoot mk es)
+                | some d => tarExtractWithMaskFromF flt fs cwdOpt d mk es   -- `filepath.Abs` inside
+                | none => tarExtractF flt fs dstRoot mk es)
             | "v:", true => (match dd with
-                | some d => zipExtractWithMaskFrom fs cwdOpt d mk es
-                | none => zipExtractR fs dstRoot mk es)
-            | _, false => if mk == 0 then tarExtractArchiveR opened fs dstRoot es else tarExtractArchiveWithMaskR opened fs dstRoot mk es
-            | _, true => if mk == 0 then zipExtractArchiveR opened fs dstRoot es else zipExtractArchiveWithMaskR opened fs dstRoot mk es
+                | some d => zipExtractWithMaskFromF flt fs cwdOpt d mk es
+                | none => zipExtractF flt fs dstRoot mk es)
+            | _, false => if mk == 0 then tarExtractArchiveF flt opened fs dstRoot es else tarExtractArchiveWithMaskF flt opened fs dstRoot mk es
+            | _, true => if mk == 0 then zipExtractArchiveF flt opened fs dstRoot es else zipExtractArchiveWithMaskF flt opened fs dstRoot mk es
           let word (b : Bool) := if b then "ok" else "err"
           let r := run fs
           -- `r:2`: the same archive is extracted a second time into what the first run left
